@@ -7,6 +7,7 @@ mod common;
 mod engines;
 mod stack;
 mod c01;
+mod c02;
 mod c03;
 mod c04;
 mod c05;
@@ -71,6 +72,7 @@ fn main() {
       mc_core::world::start_watchdog(total, format!("{} {}", prop, tier.name()));
       let report: Report = match prop.as_str() {
         "C01" => c01::run(tier),
+        "C02" => c02::run(tier),
         "C03" => c03::run(tier),
         "C04" => c04::run(tier),
         "C05" => c05::run(tier),
@@ -101,6 +103,7 @@ fn main() {
       let sub = v["sub"].as_str().unwrap_or("").to_string();
       let res = match prop.as_str() {
         "C01" => c01::replay(&sub, &v["witness"]),
+        "C02" => c02::replay(&sub, &v["witness"]),
         "C03" => c03::replay(&sub, &v["witness"]),
         "C04" => c04::replay(&sub, &v["witness"]),
         "C05" => c05::replay(&sub, &v["witness"]),
